@@ -41,15 +41,15 @@ macro "bridge_close" : tactic =>
     | (rw [forget_bind_pure, ← forget_bind_pure _ (), forget_unit])
     | (rw [forget_bind_pureF, ← forget_bind_pure _ (), forget_unit]))
 
-/-- the history-language counterpart of a protocol call (none: the single-pass insert in the middle,
-    element access — calls the history languages do not have) -/
-def toMOp (s : Sys) : Op → Option (MOp Int)
+/-- the history-language counterpart of a protocol call (none: the single-pass insert in the middle — calls the history languages do not have) -/
+def toMOp (ac : ApiCfg) (s : Sys) : Op → Option (MOp Int)
   | .new x a => some (.ctorVals x a [])
   | .newv x n v a => some (.ctorVals x a (List.replicate n v))
   | .newr x .fw a vs => some (.ctorVals x a vs)
   | .newr x .inp a vs => some (.ctorInput x a s.nextStream vs)
   | .newg x a vs => some (.ctorVals x a vs)
   | .newc x y (some a) => some (.ctorCopy x y a)
+  | .newc x y none => some (.ctorCopy x y ((s.w.hdr y).alloc + ac.socccShift))   -- select_on_container_copy_construction
   | .newm x y none => some (.ctorMove x y)
   | .newm x y (some a) => some (.ctorMoveAlloc x y a)
   | .del x => some (.dtor x)
@@ -83,6 +83,8 @@ def toMOp (s : Sys) : Op → Option (MOp Int)
   | .swp x y => some (.swap x y)
   | .appc x y => some (.append x y)
   | .appm x y => some (.appendMove x y)
+  | .at x i => some (.on x (.atIdx i))
+  | .get x i => some (.on x (.index i))
   | _ => none
 
 /-- default construction IS range construction from an empty range (same program on every world) -/
@@ -93,7 +95,7 @@ theorem ctorDefault_eq_fill (cfg : Cfg) (c a : Nat) (ch : Bool) (w : World Int) 
 
 /-- the program the driver runs for a protocol line IS the program the history theorems are about -/
 theorem bridge (ac : ApiCfg) (s : Sys) (op : Op) (m : MOp Int) (w0 : World Int) (hh : w0.hdr = s.w.hdr)
-    (h : toMOp s op = some m) : forget (opM ac s op w0) = m.run ac.cfg w0 w0 := by
+    (h : toMOp ac s op = some m) : forget (opM ac s op w0) = m.run ac.cfg w0 w0 := by
   have hc1 : Gen.ctorCountValueChecked = true := rfl
   have hc2 : Gen.ctorForwardRangeChecked = true := rfl
   have hc3 : Gen.ctorGeneratorChecked = true := rfl
@@ -118,7 +120,10 @@ theorem bridge (ac : ApiCfg) (s : Sys) (op : Op) (m : MOp Int) (w0 : World Int) 
     rw [forget_bind_pure, forget_unit]
   | newc x y a =>
     cases a with
-    | none => cases h
+    | none =>
+      injection h with h; subst h
+      simp only [opM, MOp.run]
+      rw [forget_bind_pure, forget_unit]
     | some a =>
       injection h with h; subst h
       simp only [opM, MOp.run]
@@ -199,12 +204,22 @@ theorem bridge (ac : ApiCfg) (s : Sys) (op : Op) (m : MOp Int) (w0 : World Int) 
     simp only [opM, MOp.run, show Gen.ctorCountChecked = true from rfl]
     rw [forget_bind_pure, forget_unit]
   | pbm x v => injection h with h; subst h; simp only [opM, MOp.run, SOp.run]; bridge_close
-  | «at» x i => cases h
-  | get x i => cases h
+  | «at» x i =>
+    injection h with h; subst h
+    simp only [opM, MOp.run, SOp.run]
+    rw [bind_run, bind_run, getV_run]; simp only []
+    split
+    · rfl
+    · rw [forget_bind_pureF, ← forget_bind_pure _ (), forget_unit]
+  | get x i =>
+    injection h with h; subst h
+    simp only [opM, MOp.run, SOp.run]
+    rw [bind_run, bind_run, getV_run]; simp only []
+    rw [forget_bind_pureF, ← forget_bind_pure _ (), forget_unit]
 
 /-- … and for the calls on ONE container the protocol's validity test is the history language's precondition: a line the
     driver (and the harness) accept as valid is a call the single-container theorems cover -/
-theorem bridge_valid_on (s : Sys) (op : Op) (c : Nat) (sop : SOp Int) (h : toMOp s op = some (.on c sop))
+theorem bridge_valid_on (ac : ApiCfg) (s : Sys) (op : Op) (c : Nat) (sop : SOp Int) (h : toMOp ac s op = some (.on c sop))
     (hv : op.valid s = true) : s.isAlive c = true ∧ sop.valid (s.w.hdr c).size := by
   cases op with
   | pb x arg =>
@@ -262,7 +277,7 @@ theorem bridge_valid_on (s : Sys) (op : Op) (c : Nat) (sop : SOp Int) (h : toMOp
   | newv _ _ _ _ => injection h with h; cases h
   | newr _ k _ _ => cases k <;> (first | cases h | (injection h with h; cases h))
   | newg _ _ _ => injection h with h; cases h
-  | newc _ _ a => cases a <;> (first | cases h | (injection h with h; cases h))
+  | newc _ _ a => cases a <;> (injection h with h; cases h)
   | newm _ _ a => cases a <;> (injection h with h; cases h)
   | del _ => injection h with h; cases h
   | asc _ _ => injection h with h; cases h
@@ -273,11 +288,11 @@ theorem bridge_valid_on (s : Sys) (op : Op) (c : Nat) (sop : SOp Int) (h : toMOp
   | new _ _ => injection h with h; cases h
   | newn _ _ _ => injection h with h; cases h
   | pbm x v => injection h with h; injection h with h1 h2; subst h1; subst h2; simp [Op.valid] at hv; exact ⟨hv, trivial⟩
-  | «at» _ _ => cases h
-  | get _ _ => cases h
+  | «at» x i => injection h with h; injection h with h1 h2; subst h1; subst h2; simp [Op.valid] at hv; exact ⟨hv, trivial⟩
+  | get x i => injection h with h; injection h with h1 h2; subst h1; subst h2; simp [Op.valid] at hv; exact ⟨hv.1, hv.2⟩
 
-/-- non-vacuity: the bridge covers 38 of the protocol's call forms; two instances -/
-example : toMOp (initSys 2 3) (.insn 0 1 3 (.self 0)) = some (.on 0 (.insertNSelf 1 3 0)) ∧
-          toMOp (initSys 2 3) (.appm 0 2) = some (.appendMove 0 2) := ⟨rfl, rfl⟩
+/-- non-vacuity: the bridge covers 41 of the protocol's call forms; two instances -/
+example : toMOp { cfg := Ex.cfgT } (initSys 2 3) (.insn 0 1 3 (.self 0)) = some (.on 0 (.insertNSelf 1 3 0)) ∧
+          toMOp { cfg := Ex.cfgT } (initSys 2 3) (.appm 0 2) = some (.appendMove 0 2) := ⟨rfl, rfl⟩
 
 end SvModel.Bridge
